@@ -864,12 +864,31 @@ def merge_handlers(tree: ast.Module) -> int:
 
 
 # ------------------------------------------------------------------ N12 conditional-expression assignments
+def _namedtuples(tree: ast.Module) -> dict[str, list[str]]:
+    out: dict[str, list[str]] = {}
+    for n in ast.walk(tree):
+        if isinstance(n, ast.ClassDef) and any((isinstance(b, ast.Name) and b.id == "NamedTuple") or (isinstance(b, ast.Attribute) and b.attr == "NamedTuple") for b in n.bases):
+            out[n.name] = [st.target.id for st in n.body if isinstance(st, ast.AnnAssign) and isinstance(st.target, ast.Name)]
+    return out
+
+
 def ifexp_to_if(tree: ast.Module) -> int:
     """`x = a if c else b`  ->  `if c: x = a` / `else: x = b`   (also `x, y = (a, b) if c else (d, e)` and a call
     statement whose single argument / receiver choice is a conditional expression is left alone)."""
     count = 0
 
+    nts = _namedtuples(tree)
+
     def split(st: ast.stmt) -> list[ast.stmt] | None:
+        # `a, b = Pair(x, y)` with Pair a NamedTuple of the module: the record is taken apart at once
+        if (
+            isinstance(st, ast.Assign) and len(st.targets) == 1 and isinstance(st.targets[0], ast.Tuple) and isinstance(st.value, ast.Call) and isinstance(st.value.func, ast.Name)
+            and st.value.func.id in nts and not st.value.keywords and len(st.value.args) == len(st.targets[0].elts) == len(nts[st.value.func.id])
+            and all(isinstance(t, ast.Name) for t in st.targets[0].elts) and all(isinstance(a, (ast.Name, ast.Constant, ast.Attribute)) for a in st.value.args)
+        ):
+            names = {t.id for t in st.targets[0].elts}
+            if not any(isinstance(x, ast.Name) and x.id in names for a in st.value.args for x in ast.walk(a)):
+                return [ast.copy_location(ast.Assign(targets=[t], value=a), st) for t, a in zip(st.targets[0].elts, st.value.args)]
         if isinstance(st, ast.Assign) and isinstance(st.value, ast.IfExp):
             v = st.value
             a = ast.Assign(targets=copy.deepcopy(st.targets), value=v.body)
